@@ -244,6 +244,7 @@ def inline_region(fx, root_key, depth=4, policy=None):
             nb["origin_key"] = fn["key"]
             nb["origin_bb"] = bi
             nb["inst"] = inst
+            nb["ret_local"] = loff
             new["blocks"][boff + bi] = nb
         # post-process terminators of this instance
         for bi in range(n):
